@@ -16,7 +16,7 @@ from pv.runner import Res
 
 ID = "C18"
 RULE = ("generated fragment-F actions x injective renamings of their parameters (fresh names, swaps and cycles of the "
-        "existing names, chains ?a->?b->?c->fresh, mixtures) x probes (call, state).  Non-trivial = the map's new "
+        "existing names, chains ?a->?b->?c->fresh, mixtures; the map listing the parameters in their own or (40 %) another order) x actions as parsed or (40 %) with literals over the same parameters re-made by Predicate.copy() x probes (call, state).  Non-trivial = the map's new "
         "names overlap the old ones and the action has >= 2 parameters and a binary atom or function term over "
         "parameters.  Distinct by (action, map).")
 ASSUMPTIONS = ["maps cover the action's parameters only (as the repository's callers do); constants and quantified "
@@ -42,6 +42,40 @@ def overlap(m):
     return bool(set(m.values()) & set(m.keys()) - {k for k, v in m.items() if k == v})
 
 
+def share_predicates(action):
+    """Rebuilds the action the way API users do: literals over the same (name, parameters) are made with
+    Predicate.copy() from the first one.  Returns the number of literals replaced."""
+    from pddl_plus_parser.models import Precondition, Predicate
+    firsts, n = {}, [0]
+
+    def twin(p):
+        if type(p) is not Predicate:
+            return p
+        key = (p.name, tuple(p.signature))
+        if key not in firsts:
+            firsts[key] = p
+            return p
+        n[0] += 1
+        f = firsts[key]
+        return f.copy(is_negated=(f.is_positive != p.is_positive))
+
+    def cond(c):
+        for o in list(c.operands):
+            if isinstance(o, Precondition):
+                cond(o)
+            elif type(o) is Predicate:
+                t = twin(o)
+                if t is not o:
+                    c.operands.remove(o)
+                    c.operands.add(t)
+    cond(action.preconditions.root)
+    action.discrete_effects = {twin(p) for p in sorted(action.discrete_effects, key=str)}
+    for ce in list(action.conditional_effects) + [c for u in action.universal_effects for c in u.conditional_effects]:
+        cond(ce.antecedents.root)
+        ce.discrete_effects = {twin(p) for p in sorted(ce.discrete_effects, key=str)}
+    return n[0]
+
+
 def check_case(case):
     from pddl_plus_parser.models import Operator
     res = Res()
@@ -64,10 +98,17 @@ def check_case(case):
     world = pddl.World(dom, objects)
     info = {"action": a, "map": case["rename"]}
     renamed = d1.actions[a["name"]]
-    okr, err = lib_call(renamed.change_signature, dict(m))
+    shared = 0
+    if case.get("share"):
+        oks, shared = lib_call(share_predicates, renamed)
+        if not oks:
+            raise RuntimeError(f"share_predicates failed: {shared!r}")
+    okr, err = lib_call(renamed.change_signature, dict(m))   # insertion order of the map = order of case["rename"]
     binary = any(x and isinstance(x[0], str) and x[0] not in c01.KEYWORDS and sum(1 for t in x[1:] if isinstance(t, str) and t in pnames) >= 2
                  for f in (a["pre"] or [], a["eff"]) for x in pddl.walk(f))
-    res.classes = [("overlap" if overlap(m) else "fresh") + ("+binary" if binary else "")]
+    reordered = [k for k, _ in case["rename"]] != pnames
+    res.classes = [("overlap" if overlap(m) else "fresh") + ("+binary" if binary else "") + ("+map-reordered" if reordered else "")
+                   + ("+shared-literals" if shared else "")]
     res.nontrivial = overlap(m) and len(pnames) >= 2 and binary
     res.key = json.dumps([a, case["rename"]], sort_keys=True)
     if not okr:
@@ -162,6 +203,9 @@ def gen(ch, tier):
             break
     a = case["dom"]["actions"][0]
     case["rename"] = gen_map(ch, [p for p, _ in a["params"]])
+    if ch.flag(0.4):
+        case["rename"] = ch.shuffle(case["rename"])      # the map lists the parameters in another order
+    case["share"] = ch.flag(0.4)
     return case
 
 
